@@ -344,6 +344,42 @@ def rule_compile(repo, col):
     _constraints(col, m, fake, cnf, nnf, False)
 
 
+def rule_f6(repo, col):
+    """the compiler wrappers ask for a smooth circuit: smooth defaults to True and, when it is true, every path hands the compiler its smoothing flag (the evaluator computes
+    conditional weights on the assumption that every OR node's children mention the same variables)"""
+    m = repo.modules["problog.ddnnf_formula"]
+    fns = [n for n in ast.walk(m.tree) if isinstance(n, ast.FunctionDef) and n.name.startswith("_compile_with_")]
+    if len(fns) < 2:
+        raise AnalysisError("compiler wrappers _compile_with_* not found")
+    for fn in fns:
+        params = [a.arg for a in fn.args.args]
+        if "smooth" not in params:
+            raise AnalysisError("%s: no smooth parameter" % fn.name)
+        dflt = fn.args.defaults[params.index("smooth") - (len(params) - len(fn.args.defaults))] if params.index("smooth") >= len(params) - len(fn.args.defaults) else None
+        col.decide("F6", m, fn, dflt is not None and isinstance(dflt, ast.Constant) and dflt.value is True, "%s: smooth defaults to True" % fn.name,
+                   "%s must compile to a smooth circuit by default (smooth=True)" % fn.name, construct="def %s: smooth default" % fn.name, function=fn.name)
+        flags = sorted(set(x.value for x in ast.walk(fn) if isinstance(x, ast.Constant) and isinstance(x.value, str) and x.value.startswith("-smooth")))
+        if len(flags) != 1:
+            raise AnalysisError("%s: smoothing flag of the compiler not found (%s)" % (fn.name, flags))
+        paths = dtable.extract(fn, opaque_loops=True)
+        seen = 0
+        bad = []
+        for p_ in dtable.compatible(paths, [("smooth", True)]):
+            cmds = [a for f_, a, _ in p_.calls if f_ == "_compile"]
+            if not cmds:
+                continue
+            seen += 1
+            if len(cmds[0]) < 2 or repr(flags[0]) not in cmds[0][1].replace('"', "'"):
+                others = [s_ for s_, t_, _ in p_.conds if s_ != "smooth" and not s_.startswith("<except")]
+                bad.append("under %s" % ", ".join(others) if others else "always")
+        if not seen:
+            raise AnalysisError("%s: no path reaches _compile with smooth=True" % fn.name)
+        col.decide("F6", m, fn, not bad, "%s: smooth=True always passes %s to the compiler" % (fn.name, flags[0]),
+                   "%s can call the compiler without %s although smooth is true (%s): the d-DNNF is then not smooth - an OR node whose children mention different variables loses the "
+                   "weight of the variables one child does not mention, e.g. P(evidence) of an evidence-only program comes out too large" % (fn.name, flags[0], "; ".join(sorted(set(bad)))),
+                   construct="def %s: smoothing flag on smooth=True paths" % fn.name, function=fn.name)
+
+
 def run(repo, col):
     col.rule("F1", ".nnf reader: decision table over line kinds (atom, sign, children offsets, line counter)")
     col.rule("F2", "names: attached with their label to the signed node; absent literals -> TRUE / FALSE")
@@ -352,3 +388,5 @@ def run(repo, col):
     col.rule("F5", "both paths work on the same cnf")
     rule_load(repo, col)
     rule_compile(repo, col)
+    col.rule("F6", "compiler wrappers request a smooth circuit")
+    rule_f6(repo, col)
